@@ -83,7 +83,7 @@ package app
 
 // ---- C16: cascade source resolution ------------------------------------------------------------
 
-//@ define healthySrc(cs map[string]*nodestate.NodeState, s string, lagBound float64) = cs[s].PingOk && !cs[s].IsOffline && (cs[s].IsMaster || (cs[s].SlaveState != nil && cs[s].SlaveState.ReplicationState == mysql.ReplicationRunning && cs[s].SlaveState.ReplicationLag != nil && deref(cs[s].SlaveState.ReplicationLag) < lagBound))
+//@ define healthySrc(cs map[string]*nodestate.NodeState, s string, lagBound float64) = cs[s] != nil && cs[s].PingOk && !cs[s].IsOffline && (cs[s].IsMaster || (cs[s].SlaveState != nil && cs[s].SlaveState.ReplicationState == mysql.ReplicationRunning && cs[s].SlaveState.ReplicationLag != nil && deref(cs[s].SlaveState.ReplicationLag) < lagBound))
 //@ define streamingFrom(cs map[string]*nodestate.NodeState, h string, s string) = cs[h].SlaveState != nil && cs[h].SlaveState.ReplicationState == mysql.ReplicationRunning && cs[h].SlaveState.MasterHost == s
 // ancOf(k): k-th element of the configured stream_from chain starting at the replica (ghost, defined by the two
 // [ghostdef] preconditions below; a definitional extension, satisfiable for every topology).
@@ -502,3 +502,114 @@ package app
 //@   loop 1 invariant quiet: tick == old(tick)
 //@   ensures C19.stop_active_frame [C19]: e_OptCreate == old(e_OptCreate) && e_Optimize == old(e_Optimize) && (forall h string :: d_optReg[h] ==> old(d_optReg)[h]) && noPromoteEffects() && g_ro == old(g_ro)
 //@   assert_at DisableAll#1 C19.stop_active_args [C19]: len(callarg1) == len(activeNodes)
+
+// ---- C04: the published active list --------------------------------------------------------------------
+
+//@ define replicatingOK(s *nodestate.NodeState, mg gtids.GTIDSet, mu uuid.UUID) = s.PingOk && s.SlaveState != nil && s.SlaveState.ReplicationState == mysql.ReplicationRunning && !sbText(s.SlaveState.ExecutedGtidSet, mg, mu)
+//@ define memberOK(cs map[string]*nodestate.NodeState, h string, rec []string, oldActive []string, mg gtids.GTIDSet, mu uuid.UUID) = has(cs, h) && !cs[h].IsCascade && !(rec != nil && contains(rec, h)) && (replicatingOK(cs[h], mg, mu) || (!cs[h].PingOk && contains(oldActive, h)))
+
+//@ func (*app.App).calcActiveNodes
+//@   requires vals_nonnil [safety]: (forall k string :: has(clusterState, k) ==> clusterState[k] != nil) && (forall k string :: has(clusterState, k) ==> clusterStateDcs[k] != nil)
+//@   loop 1 invariant member: forall i int :: in_range(i, activeNodes) ==> activeNodes[i] == master || memberOK(clusterState, activeNodes[i], hostsOnRecovery, oldActiveNodes, mgtids, muuid)
+//@   loop 1 invariant quiet: tick == old(tick)
+//@   ensures C04.member [C04,C11,C16]: err == nil ==> (forall i int :: in_range(i, activeNodes) ==> activeNodes[i] == master || memberOK(clusterState, activeNodes[i], resultof("GetHostsOnRecovery", 1, 0), oldActiveNodes, resultof("GTIDExecutedParsed", 1, 0), resultof("UUID", 1, 0)))
+//@   loop 1 invariant has_master: visited[master] ==> contains(activeNodes, master)
+//@   ensures C04.has_master [C04]: err == nil && has(clusterState, master) ==> contains(activeNodes, master)
+//@   ensures C04.calc_pure [C04]: tick == old(tick)
+//@   ensures C04.calc_err [C04]: err != nil ==> activeNodes == nil
+//@   assert_at Warn#4 C04.grace_period [C04]: failingTime < app.config.InactivationDelay && contains(oldActiveNodes, host) && !node.PingOk && !node.PingDubious && !clusterStateDcs[host].PingOk && app.t.m[NodeFailedAt][host] != 0
+//@   assert_at Warn#3 C04.dubious_kept [C04]: contains(oldActiveNodes, host) && !node.PingOk && (node.PingDubious || clusterStateDcs[host].PingOk)
+
+//@ func (*app.App).canShrinkActiveNodes
+//@   ensures C04.evict [C04]: result && (exists x string :: contains(oldActiveNodes, x) && !contains(newActiveNodes, x)) ==> resultof("Ping", 1, 0)
+//@   ensures C04.shrink_pure [C04]: tick == old(tick)
+
+//@ define effW(h string) = g_ssMaster[h] ? g_wait[h] : 0
+//@ define observedSemiSync(s *nodestate.NodeState, h string) = (s.SemiSyncState != nil ==> (g_ssMaster[h] == s.SemiSyncState.MasterEnabled && (s.SemiSyncState.MasterEnabled ==> g_wait[h] == s.SemiSyncState.WaitSlaveCount))) && g_wait[h] >= 0
+
+//@ func (*app.App).adjustSemiSyncOnMaster
+//@   requires nonnil [safety]: node != nil && state != nil
+//@   requires observed: observedSemiSync(state, node.host) && (state.SemiSyncState != nil && !state.SemiSyncState.MasterEnabled ==> g_wait[node.host] == state.SemiSyncState.WaitSlaveCount)
+//@   requires nonneg: waitSlaveCount >= 0
+//@   ensures C04.adjust_ok [C04]: result == nil ==> effW(node.host) == waitSlaveCount
+//@   ensures C04.adjust_raise_first [C04]: waitSlaveCount >= old(effW(node.host)) ==> effW(node.host) >= old(effW(node.host)) || result != nil
+//@   ensures C04.adjust_frame [C04]: (forall h string :: h != node.host ==> g_wait[h] == old(g_wait)[h] && g_ssMaster[h] == old(g_ssMaster)[h] && g_ssSlave[h] == old(g_ssSlave)[h]) && g_ro == old(g_ro) && noPromoteEffects()
+
+//@ define semiSyncFrameExcept(h string) = forall x string :: x != h ==> g_wait[x] == old(g_wait)[x] && g_ssMaster[x] == old(g_ssMaster)[x] && g_ssSlave[x] == old(g_ssSlave)[x]
+
+//@ func (*app.App).enableSemiSyncOnSlave
+//@   requires nonnil [safety]: slaveState != nil && masterState != nil && slaveState.SlaveState != nil && masterState.MasterState != nil
+//@   ensures C04.enable_ok [C04]: result == nil ==> g_ssSlave[host]
+//@   ensures C04.enable_frame [C04]: semiSyncFrameExcept(host) && g_ro == old(g_ro) && noPromoteEffects() && e_ChangeMaster == old(e_ChangeMaster) && e_SetActive == old(e_SetActive)
+//@   ensures C04.enable_flag_then_restart [C04]: e_StopSlave > old(e_StopSlave) || e_StopIO > old(e_StopIO) ==> resultof("SemiSyncSetSlave", 1) == nil
+
+//@ func (*app.App).disableSemiSyncOnSlave
+//@   ensures C04.disable_ok [C04]: result == nil ==> !g_ssSlave[host]
+//@   ensures C04.disable_frame [C04]: semiSyncFrameExcept(host) && g_ro == old(g_ro) && noPromoteEffects() && e_ChangeMaster == old(e_ChangeMaster) && e_SetActive == old(e_SetActive)
+
+//@ func (*app.App).disableSemiSyncOnSlaves
+//@   loop 1 invariant idx: -1 <= rangeindex && rangeindex < len(becomeInactive)
+//@   loop 1 invariant frame: (forall x string :: !contains(becomeInactive, x) && !contains(becomeDataLag, x) ==> g_wait[x] == old(g_wait)[x] && g_ssMaster[x] == old(g_ssMaster)[x] && g_ssSlave[x] == old(g_ssSlave)[x]) && g_ro == old(g_ro) && noPromoteEffects() && e_ChangeMaster == old(e_ChangeMaster) && e_SetActive == old(e_SetActive)
+//@   loop 2 invariant idx: -1 <= rangeindex$2 && rangeindex$2 < len(becomeDataLag)
+//@   loop 2 invariant frame: (forall x string :: !contains(becomeInactive, x) && !contains(becomeDataLag, x) ==> g_wait[x] == old(g_wait)[x] && g_ssMaster[x] == old(g_ssMaster)[x] && g_ssSlave[x] == old(g_ssSlave)[x]) && g_ro == old(g_ro) && noPromoteEffects() && e_ChangeMaster == old(e_ChangeMaster) && e_SetActive == old(e_SetActive)
+//@   ensures C04.disable_all_frame [C04]: (forall x string :: !contains(becomeInactive, x) && !contains(becomeDataLag, x) ==> g_wait[x] == old(g_wait)[x] && g_ssMaster[x] == old(g_ssMaster)[x] && g_ssSlave[x] == old(g_ssSlave)[x]) && g_ro == old(g_ro) && noPromoteEffects() && e_ChangeMaster == old(e_ChangeMaster) && e_SetActive == old(e_SetActive)
+
+//@ func (*app.App).calcActiveNodesChanges
+//@   requires vals_nonnil [safety]: forall k string :: has(clusterState, k) ==> clusterState[k] != nil
+//@   requires has_master: has(clusterState, master) && contains(activeNodes, master) && clusterState[master].SlaveState == nil
+//@   loop 1 invariant dead_master: visited[master] ==> contains(deadReplicas, master)
+//@   loop 1 invariant quiet: tick == old(tick)
+//@   loop 2 invariant idx: -1 <= rangeindex && rangeindex < len(activeNodes)
+//@   loop 2 invariant nomaster: !contains(becomeActive, master)
+//@   loop 2 invariant quiet: tick == old(tick)
+//@   loop 3 invariant idx: -1 <= rangeindex$2 && rangeindex$2 < len(becomeActive)
+//@   loop 3 invariant nomaster: !contains(becomeInactive, master) && !contains(dataLagging, master) && (forall i int :: in_range(i, dataLagging) ==> contains(becomeActive, dataLagging[i]))
+//@   loop 3 invariant quiet: tick == old(tick)
+//@   ensures C04.changes_pure [C04]: tick == old(tick)
+//@   ensures C04.changes_err [C04]: err != nil ==> becomeActive == nil && becomeInactive == nil && becomeDataLag == nil
+//@   ensures C04.changes_nomaster [C04]: !contains(becomeActive, master) && !contains(becomeInactive, master) && !contains(becomeDataLag, master)
+
+//@ define cfgW(app *App) = swHelper(app).rplSemiSyncMasterWaitForSlaveCount
+//@ define bHolds(app *App, master string, n int) = effW(master) >= reqWait(n, cfgW(app))
+
+//@ func (*app.App).updateActiveNodes
+//@   requires w_nonneg [config]: cfgW(app) >= 0
+//@   requires vals_nonnil [safety]: (forall k string :: has(clusterState, k) ==> clusterState[k] != nil) && clusterState[master] != nil
+//@   requires observed [obs]: observedSemiSync(clusterState[master], master) && (clusterState[master].SemiSyncState != nil && !clusterState[master].SemiSyncState.MasterEnabled ==> g_wait[master] == clusterState[master].SemiSyncState.WaitSlaveCount)
+//@   requires master_is_not_joining [obs]: clusterState[master].SlaveState == nil
+//@   loop 2 invariant idx: -1 <= rangeindex && rangeindex < len(becomeActive)
+//@   loop 2 invariant sub: forall i int :: in_range(i, activeNodes) ==> contains(resultof("calcActiveNodes", 1, 0), activeNodes[i])
+//@   loop 2 invariant lagfree: loopentry(forall i int :: in_range(i, activeNodes) ==> !contains(becomeDataLag, activeNodes[i])) ==> (forall i int :: in_range(i, activeNodes) ==> !contains(becomeDataLag, activeNodes[i]))
+//@   loop 2 invariant master_w: g_wait[master] == loopentry(g_wait[master]) && g_ssMaster[master] == loopentry(g_ssMaster[master])
+//@   loop 2 invariant shrinks: len(activeNodes) <= loopentry(len(activeNodes))
+//@   loop 2 invariant noeffect: noPromoteEffects() && g_ro == old(g_ro) && g_sro == old(g_sro) && e_ChangeMaster == old(e_ChangeMaster) && e_SetActive == old(e_SetActive)
+//@   assert_at SetActiveNodes#* C04.evict_only_with_master [C04]: (reached("canShrinkActiveNodes", 1) && resultof("canShrinkActiveNodes", 1)) || (reached("canShrinkActiveNodes", 2) && resultof("canShrinkActiveNodes", 2))
+//@   assert_at SetActiveNodes#* C04.publish_calculated [C04]: forall i int :: in_range(i, callarg0) ==> contains(resultof("calcActiveNodes", 1, 0), callarg0[i])
+//@   assert_at SetActiveNodes#2 C04.b_at_publish [C04]: bHolds(app, master, len(callarg0))
+//@   assert_at SetActiveNodes#2 C04.lagfree_publish [C04]: forall i int :: in_range(i, callarg0) ==> !contains(becomeDataLag, callarg0[i])
+//@   assert_at SetActiveNodes#1 C04.async_publish [C04]: !app.config.SemiSync
+//@   ensures C04.never_promotes [C04,C01]: noPromoteEffects() && g_ro == old(g_ro) && g_sro == old(g_sro) && e_ChangeMaster == old(e_ChangeMaster) && e_SetActive <= old(e_SetActive) + 1
+
+// ---- C11: recovery protocol ----------------------------------------------------------------------------
+
+//@ func (*app.App).SetRecovery
+//@   ensures C11.mark_order [C11,C04]: e_SetRecovery > old(e_SetRecovery) ==> resultof("SetActiveNodes", 1) == nil && !contains(d_active, host)
+//@   ensures C11.mark_ok [C11,C04]: result == nil ==> d_recovery[host] && !contains(d_active, host) && e_SetRecovery == old(e_SetRecovery) + 1
+//@   ensures C11.mark_frame [C11]: mysqlUntouched() && e_SetMaster == old(e_SetMaster) && e_ClearRecovery == old(e_ClearRecovery) && (forall h string :: h != host ==> d_recovery[h] == old(d_recovery)[h])
+//@   assert_at SetActiveNodes#1 C11.mark_removes_only_host [C11,C04]: !contains(callarg0, host) && (forall x string :: x != host && contains(resultof("GetActiveNodes", 1, 0), x) ==> contains(callarg0, x))
+
+//@ func app.isSlavePermanentlyLost
+//@   requires nonnil [safety]: sstatus != nil && masterGtidSet != nil
+//@   ensures C11.lost_def [C11]: result <==> (resultof("ReplicationState", 1) == mysql.ReplicationError || !sup(masterGtidSet, resultof("ParseGtidSet", 1)))
+//@   ensures C11.lost_parsed [C11]: reached("ParseGtidSet", 1) ==> textOf(resultof("ParseGtidSet", 1)) == resultof("GetExecutedGtidSet", 1)
+//@   ensures C11.lost_pure [C11]: tick == old(tick)
+
+//@ func (*app.App).checkRecovery
+//@   ensures C11.not_marked_noop [C11]: !resultof("IsRecoveryNeeded", 1) ==> tick == old(tick)
+//@   ensures C11.resetup_pending_noop [C11]: resultof("IsRecoveryNeeded", 1) && resultof("doesResetupFileExist", 1) ==> tick == old(tick)
+//@   ensures C11.frame [C11]: mysqlUntouched() && e_SetRecovery == old(e_SetRecovery) && e_SetActive == old(e_SetActive) && e_SetMaster == old(e_SetMaster) && e_ClearRecovery <= old(e_ClearRecovery) + 1 && (forall h string :: h != app.config.Hostname ==> d_recovery[h] == old(d_recovery)[h])
+//@   ensures C11.lost_keeps_mark [C11]: reached("isSlavePermanentlyLost", 1) && resultof("isSlavePermanentlyLost", 1) ==> e_ClearRecovery == old(e_ClearRecovery) && e_WriteResetup == old(e_WriteResetup) + 1
+//@   assert_at ClearRecovery#1 C11.clear_conditions [C11]: callarg0 == app.config.Hostname && resultof("IsRecoveryNeeded", 1) && !resultof("doesResetupFileExist", 1) && resultof("GetReplicaStatus", 1, 1) == nil && sstatus != nil && !resultof("isSlavePermanentlyLost", 1) && readOnly && resultof("IsReadOnly", 1, 2) == nil && resultof("GTIDExecutedParsed", 1, 1) == nil
+//@   assert_at isSlavePermanentlyLost#1 C11.lost_against_master [C11]: callarg0 == sstatus && callarg1 == mgtids && mgtids == resultof("GTIDExecutedParsed", 1, 0) && resultof("(dcs.DCS).Get", 1) == nil
+//@   assert_at writeResetupFile#2 C11.resetup_when_lost [C11]: resultof("isSlavePermanentlyLost", 1)
+//@   assert_at writeResetupFile#1 C11.resetup_when_stuck [C11]: oldMasterStuck && master != localNode.host && resultof("time.Since", 1) >= StuckWaitTime
